@@ -1979,6 +1979,9 @@ impl GlobalInferenceCtx<'_> {
                                 break 'switch Ty::Unknown.into();
                             }
 
+                            // a `distinct` wrapper of a sum type is switched on like the sum type
+                            let scrutinee_ty = scrutinee_ty.absolute_intern_ty(false);
+
                             // resolve all arm types beforehand
                             let mut type_resolution_error = false;
                             for arm in arms {
@@ -2234,6 +2237,7 @@ impl GlobalInferenceCtx<'_> {
                                 // default branches just receive the scrutinee as-is
                                 break 'switch_arg scrutinee_ty;
                             }
+                            let scrutinee_ty = scrutinee_ty.absolute_intern_ty(false);
 
                             let Some(this_variant) = switch_local_body.variant else {
                                 break 'switch_arg Ty::Unknown.into();
